@@ -577,6 +577,8 @@ def check_history(hist, stop_at_first=True):
                       expected=sc * pickup_value(o, a, src) + off, dependency=(a != 'thickness' and False))
             elif t == 'solve' and not structural:
                 bad = solve_violation(o, [[op[1], op[2]]], [], 'add')
+                if bad and bad.get('precondition_failed'):
+                    break
                 if pre_ua is not None and op[1] >= 1 and not abs(pre_ua[op[1] - 1]) > 1e-9:
                     break            # precondition: the ray arriving at the surface is not parallel to the axis
                 if bad:
@@ -593,6 +595,8 @@ def check_history(hist, stop_at_first=True):
                           dependency=pickup_dependency(pi, pks, svs, o), pickups=pks, solves=svs)
                         break
                 bad = solve_violation(o, svs, pks, 'update')
+                if bad and bad.get('precondition_failed'):
+                    break            # division by a zero slope: inf/NaN vertices are the documented outcome
                 if bad:
                     bad['launch_changed'] = launch_changed(o, pre_ya, pre_ua)
                     V(**bad)
@@ -692,6 +696,10 @@ def solve_violation(o, svs, pks, stage):
     ya = [f1(v) for v in ya]
     ua = [f1(v) for v in ua]
     for si, (idx, h) in enumerate(svs):
+        if idx >= 1 and not abs(ua[idx - 1]) > 1e-9:
+            # precondition of the solve: the ray arriving at the surface is not parallel to the axis
+            # (the surfaces in front of idx are not moved by this solve, so this slope is the one it divided by)
+            return {'precondition_failed': True}
         if not feq(ya[idx], h, 1e-7):
             powered = idx >= 1 and not feq(ua[idx], ua[idx - 1], 1e-9)
             dep = any(j <= idx for j, _ in svs[si + 1:])
